@@ -2,7 +2,7 @@
 (***************************************************************************)
 (* Observer-mode trace validation for the mutex: replays an execution      *)
 (* recorded from the real code (NDJSON, one event per line, runs separated *)
-(* by "reset" events) through the client-level observer MutexObs and       *)
+(* by "run_start" events) through the client-level observer MutexObs and       *)
 (* evaluates every property in every state of the trace.  Nothing about    *)
 (* the implementation is assumed: only the events the code produced.       *)
 (***************************************************************************)
@@ -23,7 +23,7 @@ TraceInit == ObsInit /\ l = 1
 TraceNext ==
   /\ l <= Len(Rec)
   /\ l' = l + 1
-  /\ IF Rec[l].op = "reset"
+  /\ IF Rec[l].op = "run_start"
      THEN /\ oA' = [f \in Slots |-> "none"]
           /\ oLastW' = [f \in Slots |-> "-"]
           /\ oWoken' = [f \in Slots |-> FALSE]
